@@ -118,7 +118,7 @@ def run(ctx):
             tgt = [n.targets[0].id for n in f.body_nodes() if isinstance(n, ast.Assign) and n.value is cs[0] and isinstance(n.targets[0], ast.Name)]
             ok = len(tgt) == 1 and norm_text(wt[0].func.value) == tgt[0]
             b = {k: norm_text(v) for k, v in wire.kw(cs[0], p.func(hk)).items()}
-            ok = ok and b.get("header_dict") == "header_dict" and list(b.values())[0] in ("array_2d", "array_1d")
+            ok = ok and b.get("header_dict") == "header_dict" and (b.get("array_2d") == "array_2d" or b.get("array_1d") == "array_1d")
         ctx.ob("C16.flip-unit", wk + ":via-hdu", ok, where=f, node=cs[0] if cs else f.node, construct=norm_text(cs[0])[:100] if cs else "", message="the file writer must write exactly the HDU produced by hdu_for_output_from for its data and header")
         units[wk] = units.get(hk, 0)
     # ---- parity per class / route
